@@ -85,7 +85,7 @@ structure Env where
   valid : KV → Bool                -- `check_values` of `validate` on the configuration
 
 inductive LErr where              -- `link_arguments` raises ValueError
-  | multiNoFn | doubleTarget | sourceIsTarget | targetIsSource | noAction | badSubclassTarget
+  | multiNoFn | doubleTarget | sourceIsTarget | selfLink | targetIsSource | noAction | badSubclassTarget
 deriving DecidableEq, Repr, Inhabited
 
 inductive PErr where              -- every one of these ends in `parser.error` (ArgumentError)
@@ -154,6 +154,7 @@ def addLink (p : Parser) (sources : List Key) (coerce : List Bool) (target : Key
   if fn.isNone && sources.length != 1 then .error .multiNoFn
   else if (existingTargets p).contains target then .error .doubleTarget
   else if sources.any (fun s => (existingTargets p).contains s) then .error .sourceIsTarget
+  else if sources.contains target then .error .selfLink      -- the target is one of the link's own sources (ba94f2f)
   else if (existingSources p).contains target then .error .targetIsSource
   else
     match resolveSources p.actions sources coerce, findParent p.actions target with
